@@ -206,6 +206,46 @@ theorem C01_lower_irrelevant (lower l : List Ref) (hne : l ≠ [])
     simp [this]
   simp [winner, htop]
 
+/-! ### a definition above all others wins -/
+
+/-- a definition whose priority is above that of every other definition of the name is the winner, whatever the
+others are (how many, in conflict or not) -/
+theorem C01_strict_top_wins (pre post : List Ref) (r : Ref)
+    (h : ∀ x ∈ pre ++ post, x.prio < r.prio) : winner (pre ++ r :: post) = some r := by
+  have hmax : maxPrio (pre ++ r :: post) = r.prio := by
+    apply Nat.le_antisymm
+    · -- every element is ≤ r.prio
+      have hall : ∀ x ∈ pre ++ r :: post, x.prio ≤ r.prio := by
+        intro x hx
+        rcases List.mem_append.mp hx with hx | hx
+        · exact Nat.le_of_lt (h x (List.mem_append.mpr (Or.inl hx)))
+        · rcases List.mem_cons.mp hx with hx | hx
+          · subst hx; exact Nat.le_refl _
+          · exact Nat.le_of_lt (h x (List.mem_append.mpr (Or.inr hx)))
+      have hne : pre ++ r :: post ≠ [] := by simp
+      obtain ⟨x, hx⟩ := List.exists_mem_of_ne_nil _ (top_ne_nil hne)
+      have hx' : x ∈ pre ++ r :: post ∧ x.prio = maxPrio (pre ++ r :: post) := by
+        unfold top at hx
+        rw [List.mem_filter] at hx
+        exact ⟨hx.1, by simpa using hx.2⟩
+      rw [← hx'.2]; exact hall x hx'.1
+    · exact le_maxPrio (by simp)
+  have htop : top (pre ++ r :: post) = [r] := by
+    unfold top
+    rw [hmax, List.filter_append, List.filter_cons]
+    have hpre : pre.filter (fun x => x.prio == r.prio) = [] := by
+      apply List.filter_eq_nil_iff.mpr
+      intro x hx
+      have := h x (List.mem_append.mpr (Or.inl hx))
+      simp; omega
+    have hpost : post.filter (fun x => x.prio == r.prio) = [] := by
+      apply List.filter_eq_nil_iff.mpr
+      intro x hx
+      have := h x (List.mem_append.mpr (Or.inr hx))
+      simp; omega
+    simp [hpre, hpost]
+  simp [winner, htop]
+
 /-! ### the order of files inside a directory is irrelevant -/
 
 theorem maxPrio_perm {a b : List Ref} (h : a.Perm b) : maxPrio a = maxPrio b := by
